@@ -55,6 +55,9 @@ func (this *Addr) Deserialization(source *common.ZeroCopySource) error {
 	if eof {
 		return io.ErrUnexpectedEOF
 	}
+	if count > source.Len() {
+		return io.ErrUnexpectedEOF
+	}
 
 	for i := 0; i < int(count); i++ {
 		var addr comm.PeerAddr
